@@ -151,6 +151,25 @@ FIRST_MISS = {
  "C14-w2m1": "barrier lists were ascending -> C14 paths_2x2_fb3_lists (every permutation of 2-3 barrier values)",
  "C15-w2m1": "rasters and masks were always C-ordered -> C15 *_rF/_rT/_rS layout spaces",
  "C18-w2m1": "rasters were always C-ordered -> C18 layout parameter (C, F, T) on trim and crop spaces",
+ "C01-w3m1": "generate_terrain was never given full_extent (extension made on reading the report) -> C01 op generate_terrain_full_extent (different relative x / y windows)",
+ "C01-w3m2": "hillshade angles never 0 on Dask (extension made on reading the report) -> C01 ops hillshade_az0_alt0 / az360_alt90",
+ "C04-w3m1": "layer labels were always ascending -> C04 layo_* spaces (non-ascending numeric and string labels)",
+ "C05-w3m1": "observer always given at the cell centre -> C05 offset_* spaces (displaced by +-0.3 / +-0.49 cell)",
+ "C06-w3m2": "max_distance 0 was not generated -> C06 config_max0_* spaces (and 0.0 in C07's halo grid)",
+ "C07-w3m1": "coordinates were always evenly spaced (extension made on reading the report) -> C07 non_uniform_coordinates_3x4",
+ "C07-w3m2": "target values were all positive (extension made on reading the report) -> C07 signed_default_targets_3x4",
+ "C10-w3m1": "res attr was an immutable tuple with positive entries (extension made on reading the report) -> C10 input_attrs_and_coords_variants",
+ "C10-w3m2": "all raster arguments shared identical coordinates (extension made on reading the report) -> C10 input_attrs_and_coords_variants",
+ "C11-w3m1": "no seed at the boundary value 0 (extension made on reading the report) -> C11 letter perlin_s0 (+ C01 op perlin_s0_f31)",
+ "C11-w3m2": "PYTHONHASHSEED was pinned to 0 in every interpreter -> C11 environment grid now varies PYTHONHASHSEED; letter focal_stats_dup_names",
+ "C12-w3m1": "value ranges were never tiny relative to magnitude -> C12 equal_interval grid shifted by +-1e6 and scaled by 2^-30",
+ "C15-w3m1": "no raster had > 64 provisional regions -> C15 CheckerSpace (checkerboards 5x16 .. 9x9 + one merging motif)",
+ "C16-w3m1": "three-arm merges need an interior 4x6 pattern -> C16 rasters embedded in a margin (border vs interior dimension)",
+ "C16-w3m2": "inputs carried dimension coordinates only -> C16 inputs carry scalar and auxiliary coordinates",
+ "C17-w3m1": "variable names were unrelated strings -> C17 *_names_* spaces (substring / superstring names)",
+ "C17-w3m2": "no negative layer values -> C17 signed alphabets",
+ "C18-w3m1": "the empty exclusion set was not generated -> C18 trim with () and []",
+ "C18-w3m2": "id lists had no repeated ids -> C18 crop +d / +d2 lists",
  "C19-m1": "detected, but the per-case replay could not reproduce a history-dependent failure (HARNESS-ERROR) -> runner confirms by replaying the shard prefix as a history",
 }
 
